@@ -381,6 +381,7 @@ def run(ctx):
         raise Violation("C08/export-failed-without-fault", "DomainExporter.export_domain", "raised although no fault")
     on_disk = fs.read_real_bytes(path) if path.exists() else b""
     ctx.log("export", plan, k, expected_len, len(on_disk), acked)
+    ctx.measure("write_fault_positions (plan, cut, length)", (plan, k, expected_len))
     ctx.note(f"export plan={plan} k={k} acked={acked} bytes on disk {len(on_disk)}/{expected_len}")
     ctx.nontrivial = fault_fired or rich
     ctx.sample = {"domain": label, "plan": plan, "cut": k, "acked": acked, "bytes": [len(on_disk), expected_len],
